@@ -256,7 +256,9 @@ class RaggedArray(IndexableArray, np.lib.mixins.NDArrayOperatorsMixin):
             -1,
         ), "Reductions on ragged arrays are only supported for the last axis"
 
-        if self.size == 0:
+        if self.size == 0 and ufunc.identity is not None:
+            result = ufunc.reduce(np.empty((len(ra), 0), dtype=self.dtype), axis=-1)
+        elif self.size == 0:
             result = np.full(len(ra), fill_value=ufunc.identity)
         else:
             # if one or more of the last rows are empty,
@@ -265,14 +267,14 @@ class RaggedArray(IndexableArray, np.lib.mixins.NDArrayOperatorsMixin):
                 first_last_empty_row = np.searchsorted(self._shape.starts, self._shape.starts[-1], side='left')
                 result = ufunc.reduceat(self.ravel(), self._shape.starts[:first_last_empty_row])
                 result = np.pad(result, (0, len(self._shape.starts)-first_last_empty_row),
-                                constant_values=0 if ufunc.identity is None else ufunc.identity)
+                                constant_values=0 if ufunc.identity is None else ufunc.reduce(result[:0]))
             else:
                 result = ufunc.reduceat(self.ravel(), self._shape.starts)
 
         # hack to fix problem that reduceat does not give identity when index i == index i+1 (empty rows)
         # not necessary when ufunc does not have identity
         if ufunc.identity is not None:
-            result[ra._shape.lengths == 0] = ufunc.identity
+            result[ra._shape.lengths == 0] = ufunc.reduce(result[:0])
 
         return result
 
